@@ -668,6 +668,7 @@ fn nest_text(template: &str, n: usize) -> Option<String> {
         "between" => format!("SELECT {}1", rep("1 BETWEEN 2 AND ")),
         "window" => format!("SELECT {}1{}", rep("sum(x) OVER (ORDER BY "), rep(")")),
         "lambda" => format!("SELECT {}1{}", rep("f(x -> "), rep(")")),
+        "lambda_paren" => format!("SELECT {}1", rep("(a) -> ")),
         "explain" => format!("{}SELECT 1", rep("EXPLAIN ")),
         "datatype_array" => format!("SELECT CAST(x AS {}INT{})", rep("ARRAY<"), rep(">")),
         "datatype_struct" => format!("SELECT CAST(x AS {}INT{})", rep("STRUCT<a "), rep(">")),
@@ -686,7 +687,14 @@ fn ladder(c: &Value) -> Value {
     let t = c["template"].as_str().unwrap();
     let n = c["n"].as_u64().unwrap() as usize;
     let limit = c["limit"].as_u64().map(|x| x as usize);
-    let sql = match nest_text(t, n) { Some(s) => s, None => return json!({"status":"unknown-template"}) };
+    let mut sql = match nest_text(t, n) { Some(s) => s, None => return json!({"status":"unknown-template"}) };
+    if c["fail"].as_bool().unwrap_or(false) {
+        // failing variant: the nest is cut at its innermost point (the common prefix of depth n and n+1) and ends in a
+        // token no operand can start with, so every speculative parse on the way in fails at the very end
+        let deeper = nest_text(t, n + 1).unwrap();
+        let cut = sql.char_indices().zip(deeper.chars()).take_while(|((_, a), b)| a == b).map(|((i, a), _)| i + a.len_utf8()).last().unwrap_or(0);
+        sql = format!("{} +", &sql[..cut]);
+    }
     sqlparser::parser::verif_hooks::reset();
     let t0 = std::time::Instant::now();
     let r = std::panic::catch_unwind(std::panic::AssertUnwindSafe(|| parse_opts(d.as_ref(), &sql, true, false, limit)));
